@@ -506,6 +506,9 @@ class Gen:
                 v["tailcap"] = self.newcap()
                 caps.append(v["tailcap"])
             return v
+        if isinstance(val, U.Op):
+            # a str subclass whose str() ('Op.ADD') differs from its raw characters ('+')
+            return {"t": "re", "src": r.choice(["Op\\.ADD", "Op\\.SUB", "[+]", "-", "Op", "\\+", ".*"])}
         if isinstance(val, (str, int)) and not isinstance(val, bool):
             return {"t": "re", "src": self.regex_for(val)}
         return {"t": "re", "src": r.choice([".*", "", "x"])}
@@ -527,7 +530,7 @@ class Gen:
         else:
             clsspec = [r.choice(U.NODE_CLASSES)]
         fields = []
-        cands = [f for f in U.FIELDS[cls] if f.kind != "prop" or f.vt in ("str", "int", "optint")]
+        cands = [f for f in U.FIELDS[cls] if f.kind != "prop" or f.vt in ("str", "int", "optint", "op")]
         r.shuffle(cands)
         for f in cands[: r.choice([0, 1, 1, 2, 3, 4])]:
             val = getattr(x, f.name)
@@ -748,7 +751,7 @@ def make_config(rseed: int, prop: str, tier: str, faults: bool) -> dict[str, Any
             "p_ref": 0.0,
             "p_mutate": 0.5,
             "prop": "C08",
-            "leaf_classes": ["LeafA", "LeafB", "LeafA2", "Meta"] + r.sample(["Vals", "Lit", "Upper"], r.choice([0, 1, 2])),
+            "leaf_classes": ["LeafA", "LeafB", "LeafA2", "Meta"] + r.sample(["Vals", "Vals", "Lit", "Upper", "Both"], r.choice([0, 1, 2])),
             "inner_classes": r.sample(["Pair", "Seq", "Mixed", "Fixed", "Falsy"], r.choice([2, 3, 5])),
             "origins": r.sample(U.ORIGIN_KEYS, r.choice([2, 3])),
             "pools": {"str": r.sample([s for s in U.STR_POOL if "\n" not in s] + ["a b", "a  b", "a\tb", "q  x"], r.choice([2, 3, 5])), "bool": [True, False]},
